@@ -124,6 +124,7 @@ type Path struct {
 	violations  []*Violation
 	fresh       bool // true once the path passed its prefix
 	assertPrefer *Term // optional extra conjunct tried first when looking for a counterexample
+	freeYield    bool  // the current yield is voluntary (sym.Yield): allowed even when the budget is used up
 	sched        []int // thread that runs after each scheduling event (yield / block / exit), for native replay
 }
 
